@@ -84,7 +84,7 @@ SameHdr(w, m) == w.sid = m.sid /\ w.ty = m.ty /\ w.min = m.min /\ w.fl = m.fl /\
 
 NoReq == [sid |-> <<0,0,0,0>>, seq |-> 0, ty |-> 0, min |-> 0, fl |-> 0, maj |-> 0]
 ObsInit == [req |-> NoReq, full |-> FALSE, hv |-> FALSE, cls |-> "U", rej |-> FALSE, pend |-> FALSE,
-            inv |-> 0, wr |-> 0, restart |-> FALSE, next |-> -1, closed |-> FALSE,
+            inv |-> 0, wr |-> 0, restart |-> FALSE, next |-> -1, closed |-> FALSE, cb |-> <<-1>>,
             hi |-> [s \in TSID |-> 0], regd |-> [s \in TSID |-> -1], bad |-> {}]
 
 ErrStatus(ty) == CASE ty = 1 -> 7 [] ty = 2 -> 17 [] ty = 3 -> 2 [] OTHER -> -1
@@ -123,7 +123,9 @@ ObsInv(e) ==
                      << o.pend /\ o.full /\ o.hv /\ o.rej, "C07" >>,
                      << o.pend /\ o.full /\ o.hv /\
                         ~( e.sid = o.req.sid /\ e.seq = o.req.seq /\ e.ty = o.req.ty /\ e.min = o.req.min
-                           /\ e.fl = o.req.fl /\ e.maj = o.req.maj /\ e.b = ClrTab[lf] ), "C05" >> })
+                           /\ e.fl = o.req.fl /\ e.maj = o.req.maj /\ Len(e.b) = Len(ClrTab[lf]) ), "C05" >>,
+                     \* the handler receives the body de-obfuscated with the RFC 8907 pad (verbatim when sent in the clear)
+                     << o.pend /\ o.full /\ o.hv /\ e.b # ClrTab[lf], "C03" >> })
    IN [o EXCEPT !.inv = @ + 1, !.bad = @ \cup new,
                 !.hi = IF s \in TSID THEN [@ EXCEPT ![s] = S!Max(@, e.seq)] ELSE @]
 
@@ -145,7 +147,9 @@ ObsWr(e) ==
                d == IF w.ty \in {1,2,3} THEN Dec(ReplyKind(w.ty), clr) ELSE Bad
                restart == d.ok /\ w.ty = 1 /\ d.v.status = 6
                new == Tags({ << ~( lenok /\ w.maj = 12 /\ S!ReplyMirrors(o.req, w, restart) ), "C06" >>,
-                             << lenok /\ ~( d.ok /\ Valid(ReplyKind(w.ty), d.v) ), "C06" >> })
+                             << lenok /\ ~( d.ok /\ Valid(ReplyKind(w.ty), d.v) ), "C06" >>,
+                             \* what is on the wire is the handler's clear body XOR the pad (or verbatim with the clear flag)
+                             << o.cb # <<-1>> /\ clr # o.cb, "C03" >> })
            IN [o EXCEPT !.wr = @ + 1, !.restart = restart, !.bad = @ \cup new,
                         !.hi = IF w.sid \in TSID THEN [@ EXCEPT ![w.sid] = S!Max(@, w.seq)] ELSE @]
 
@@ -178,6 +182,7 @@ ObsNext(e) ==
      [] e.e = "feed"    -> ObsFeed(e)
      [] e.e = "inv"     -> ObsInv(e)
      [] e.e = "reg"     -> [o EXCEPT !.next = e.id]
+     [] e.e = "rep"     -> [o EXCEPT !.cb = IF "cb" \in DOMAIN e /\ e.op # "badreply" THEN e.cb ELSE <<-1>>]
      [] e.e = "wr"      -> ObsWr(e)
      [] e.e = "rdblock" -> Settle(FALSE)
      [] e.e = "cl"      -> [Settle(TRUE) EXCEPT !.closed = TRUE]
